@@ -36,6 +36,16 @@ Ltac split_goal :=
   repeat match goal with H : registered ?a ?b = _ |- context [registered ?a ?b] => rewrite H end;
   cbn; try reflexivity; try discriminate; try congruence.
 
+Definition acted_other (o : observed) : bool :=
+  match o with ORes _ _ _ _ WOther => true | _ => false end.
+
+Lemma names_self_acts_self : forall i, names_other (i_pres i) = false -> acted_other (model i) = false.
+Proof.
+  intros [r e c rg p g] H; cbn [i_pres] in H. unfold model; cbn [i_pres].
+  destruct p; try discriminate H; cbn [names_other_client andb];
+    destruct (authenticate _ _ _ _ _ _ _); reflexivity.
+Qed.
+
 Ltac open_input i :=
   destruct i as [r e c rg p g]; destruct c as [fpost fpk fref ccc cte cdev];
   destruct rg as [known meth app gs key]; destruct known, key.
@@ -86,7 +96,7 @@ Proof.
 Qed.
 
 Lemma device_authz_success_justified : forall i,
-  i_endpoint i = EDeviceAuthz -> names_other (i_pres i) = false ->
+  i_endpoint i = EDeviceAuthz -> acted_other (model i) = false ->
   success (model i) = true -> device_authz_justified (i_reg i) (i_pres i) = true.
 Proof.
   intro i; open_input i; cbn [i_endpoint i_cfg i_reg i_pres i_grant i_router].
@@ -99,21 +109,21 @@ Qed.
 (* whatever the model answers is either the success document or a well-shaped refusal *)
 Lemma refusal_shape_model : forall i,
   match model i with
-  | ORes S2 e tok act w => e = ENone /\ if names_other (i_pres i) then w = WOther /\ i_endpoint i = EDeviceAuthz
-                                        else w <> WOther
+  | ORes S2 e tok act w => e = ENone /\
+      (w = WOther -> i_endpoint i = EDeviceAuthz /\ names_other (i_pres i) = true)
   | ORes s e tok act w => refusal_shape (i_endpoint i) s e tok act w = true
   | _ => False
   end.
 Proof.
   intro i; open_input i; unfold model; cbn [i_endpoint i_cfg i_reg i_pres i_grant i_router].
   all: destruct e; [destruct g| | |]; destruct r; destruct p as [| |[] ?| |[]|[]|[] []| | | |], meth; cbn; split_goal.
-  all: repeat split; discriminate.
+  all: split; [reflexivity|intro HW; try discriminate HW; split; reflexivity].
 Qed.
 
 (* ---------------- the predicate on the model *)
 
 Lemma justified_model : forall i,
-  known_gap i = false -> names_other (i_pres i) = false -> success (model i) = true -> justified i = true.
+  known_gap i = false -> acted_other (model i) = false -> success (model i) = true -> justified i = true.
 Proof.
   intros i Hg Hn Hs. unfold justified.
   destruct (i_endpoint i) eqn:He.
@@ -131,9 +141,10 @@ Proof.
   unfold spec. destruct (model i) as [s e tok act w| |]; try contradiction.
   destruct s; try exact Hr.
   destruct Hr as [-> Hw]. cbn [andb].
-  destruct (names_other (i_pres i)) eqn:Hn.
-  - destruct Hw as [-> He]. unfold other_justified. now rewrite He.
-  - rewrite Hj by reflexivity. destruct w; try reflexivity. now elim Hw.
+  destruct w.
+  - apply Hj; reflexivity.
+  - apply Hj; reflexivity.
+  - destruct (Hw eq_refl) as [He Hn]. unfold other_justified. now rewrite He.
 Qed.
 
 Definition gap_witness : input :=
@@ -204,7 +215,7 @@ Lemma device_authz_statement : forall r c rg p g,
   r_known rg = true /\ identifies p = true /\ registered rg GDevice = true.
 Proof.
   intros r c rg p g Hno Hs.
-  pose proof (device_authz_success_justified (mkInput r EDeviceAuthz c rg p g) eq_refl Hno Hs) as H.
+  pose proof (device_authz_success_justified (mkInput r EDeviceAuthz c rg p g) eq_refl (names_self_acts_self (mkInput r EDeviceAuthz c rg p g) Hno) Hs) as H.
   cbn [i_reg i_pres] in H. unfold device_authz_justified in H.
   apply andb_true_iff in H as [H H3]. apply andb_true_iff in H as [H1 H2]. auto.
 Qed.
@@ -240,9 +251,7 @@ Proof.
   intros i s e tok act w Hm ->.
   pose proof (refusal_shape_model i) as H. rewrite Hm in H.
   destruct s; try (unfold refusal_shape in H; rewrite ?andb_false_r in H; cbn in H; discriminate H).
-  destruct H as [_ H]. destruct (names_other (i_pres i)).
-  - now destruct H.
-  - now elim H.
+  destruct H as [_ H]. now apply H.
 Qed.
 
 (* the model never panics and never writes twice *)
@@ -262,7 +271,7 @@ Proof.
   assert (Hgap : known_gap (mkInput r e c rg p g) = false \/ known_gap (mkInput r e c rg p g) = true)
     by (destruct (known_gap _); auto).
   destruct Hgap as [Hg|Hg].
-  - pose proof (justified_model _ Hg Hno Hs) as Hj. unfold justified in Hj; cbn [i_endpoint i_cfg i_reg i_pres i_grant] in Hj.
+  - pose proof (justified_model _ Hg (names_self_acts_self (mkInput r e c rg p g) Hno) Hs) as Hj. unfold justified in Hj; cbn [i_endpoint i_cfg i_reg i_pres i_grant] in Hj.
     destruct e; cbn in Hj.
     + unfold token_justified, cred_valid in Hj. rewrite Hk in Hj.
       destruct g; cbn in Hj; rewrite ?andb_false_r in Hj; discriminate Hj.
@@ -292,7 +301,7 @@ Proof.
   - unfold known_gap in Hg; cbn [i_router i_endpoint i_grant i_reg] in Hg.
     destruct r, e, g; try discriminate Hg. apply negb_true_iff in Hg.
     destruct (token_gap c rg p Hg Hs) as [_ Hc]. rewrite Hcv in Hc. discriminate Hc.
-  - pose proof (justified_model _ Hg Hno Hs) as Hj. unfold justified in Hj; cbn [i_endpoint i_cfg i_reg i_pres i_grant] in Hj.
+  - pose proof (justified_model _ Hg (names_self_acts_self (mkInput r e c rg p g) Hno) Hs) as Hj. unfold justified in Hj; cbn [i_endpoint i_cfg i_reg i_pres i_grant] in Hj.
     destruct e; try congruence.
     + unfold token_justified in Hj. rewrite Hcv in Hj.
       destruct g; try congruence; rewrite ?andb_false_r in Hj; discriminate Hj.
